@@ -10,9 +10,9 @@ PROP = 'C14'
 def pool(tier):
     base = [0, 1, -1, 2, -2, 3, -3, 7, 10, -10]
     edges = []
-    for k in (31, 63, 64, 127):
+    for k in ((31, 63, 64, 127) if tier == 'quick' else (31, 32, 62, 63, 64, 65, 126, 127, 128)):
         c = 1 << k
-        for d in ((-1, 0, 1) if tier == 'quick' else (-2, -1, 0, 1, 2)):
+        for d in ((-1, 0, 1) if tier == 'quick' else (-3, -2, -1, 0, 1, 2, 3)):
             edges += [c + d, -(c + d)]
     edges += [(1 << 32) + 1, -((1 << 32) + 1), 10 ** 18, 10 ** 19, 10 ** 38, 3 ** 100, -(5 ** 90), (1 << 400) - 1]
     if tier != 'quick':
